@@ -161,8 +161,11 @@ class _Quadrature(torch.autograd.Function):
     @staticmethod
     def backward(ctx, grad_ys):
         # retrieve the params
+        # saved_tensors = (*limits given as tensors, *tensor_params)
+        # (the split position is counted from the front because [-0:] would take everything)
         ntensor_params = ctx.param_sep.ntensors()
-        tensor_params = ctx.saved_tensors[-ntensor_params:]
+        nlimits = len(ctx.saved_tensors) - ntensor_params
+        tensor_params = ctx.saved_tensors[nlimits:]
         allparams = ctx.param_sep.reconstruct_params(tensor_params)
         nparams = ctx.nparams
         params = allparams[:nparams]
@@ -171,7 +174,7 @@ class _Quadrature(torch.autograd.Function):
         with fcn.disable_state_change():
 
             # restore xl, and xu
-            xlxu_tensor = ctx.saved_tensors[:-ntensor_params]
+            xlxu_tensor = ctx.saved_tensors[:nlimits]
             if ctx.xltensor and ctx.xutensor:
                 xl, xu = xlxu_tensor
             elif ctx.xltensor:
@@ -188,6 +191,11 @@ class _Quadrature(torch.autograd.Function):
                                  ).reshape(xl.shape) if ctx.xltensor else None
             grad_xu = torch.dot(grad_ys.reshape(-1), fcn(xu, *params).reshape(-1)
                                 ).reshape(xu.shape) if ctx.xutensor else None
+
+            # no parameter to differentiate: only the boundary terms are left
+            if ntensor_params == 0:
+                grad_params = [None for _ in range(ctx.param_sep.nnontensors())]
+                return (None, grad_xl, grad_xu, None, None, None, None, None, *grad_params)
 
             def new_fcn(x, *grad_y_params):
                 grad_ys = grad_y_params[0]
